@@ -96,9 +96,10 @@ PROPS = {
         rule="one connection per node; 1-5 clients with deep pipelines (single, split, SET;GET pairs on private keys), interleavings of client reads, "
              "write signals (thorough: >256 queued tasks per poll), backend replies and blocked/short backend writes; oracle: per (client,node) request "
              "indices arrive non-decreasing, and each pipelined GET observes its SET; profile C10redir (stale view, MOVED/ASK): two requests of one client redirected by the same "
-             "node to the same node are executed there in the order sent; non-trivial = several clients or a blocked/short backend write",
-        quick=dict(budget_s=80, profiles=[P("C10", 300), P("C10redir", 120), P("C10redir", 60, "moved")]),
-        thorough=dict(budget_s=1500, profiles=[P("C10", 8000), P("C10", 300, "tasks"), P("C10redir", 3000), P("C10redir", 3000, "moved")]),
+             "node to the same node are executed there in the order sent; variant connloss: the connection to a node is lost right after the client handed "
+             "over a request for it (before the deferred write ran) and the next request arrives in a read of its own; non-trivial = several clients or a blocked/short backend write",
+        quick=dict(budget_s=80, profiles=[P("C10", 300), P("C10", 120, "connloss"), P("C10redir", 120), P("C10redir", 60, "moved")]),
+        thorough=dict(budget_s=1500, profiles=[P("C10", 8000), P("C10", 300, "tasks"), P("C10", 4000, "connloss"), P("C10redir", 3000), P("C10redir", 3000, "moved")]),
         reach=["c10_set_get_pairs", "c10_redirected_same_path_pairs"],
     ),
     "C11": dict(
@@ -147,9 +148,10 @@ PROPS = {
         rule="the proxy holds a converged view that the model makes stale: slots handed to another known master (MOVED) and slots in migration with a "
              "seeded subset of keys already moved (ASK, importing node insists on ASKING), hit by single-key requests and by fragments of split "
              "requests at seeded pipeline positions while all nodes keep reporting the old view; oracle: client gets exactly the final owner's reply "
-             "in position, no fragment is redirected more than 16 times; non-trivial = at least one redirect was answered",
-        quick=dict(budget_s=80, profiles=[P("C13", 300), P("C13", 150, "mixed")]),
-        thorough=dict(budget_s=1500, profiles=[P("C13", 8000), P("C13", 3000, "moved"), P("C13", 3000, "ask"), P("C13", 6000, "mixed")]),
+             "in position, no fragment is redirected more than 16 times; variant connloss: the redirect target resets its connection just when the "
+             "redirect is produced (both reach the proxy in one poll) - the request must still end in a reply, an error or a closed connection; non-trivial = at least one redirect was answered",
+        quick=dict(budget_s=80, profiles=[P("C13", 300), P("C13", 150, "mixed"), P("C13", 120, "connloss")]),
+        thorough=dict(budget_s=1500, profiles=[P("C13", 8000), P("C13", 3000, "moved"), P("C13", 3000, "ask"), P("C13", 6000, "mixed"), P("C13", 4000, "connloss")]),
         reach=["c13_moved", "c13_ask"],
     ),
     "C03": dict(
